@@ -11,6 +11,9 @@
 #endif
 // op-availability probes (bin/check.py compiles sim/logsim/probe_*.cpp on their own): a kind of
 // streamed item the front end no longer accepts is compiled out here and reported as a violation
+#ifndef LS_MIN_AFTER_HEADER
+#define LS_MIN_AFTER_HEADER 1
+#endif
 #ifndef LS_HAVE_CALLABLE_LIT
 #define LS_HAVE_CALLABLE_LIT 1
 #endif
@@ -312,8 +315,23 @@ template <typename R>
 struct TF7 : Traced<R, nl::filter::null_filter<R>>
 {
 };
+// a user-supplied filter whose verdict depends on the tag, combined with a threshold: two statements
+// of one severity can get different verdicts without any reconfiguration in between
+template <typename R>
+struct TagNotDb
+{
+    typedef R record_type;
+    bool filter(R& r) const
+    {
+        return tag_of(r, std::true_type()) != "db core";
+    }
+};
+template <typename R>
+struct TF8 : Traced<R, and_filter<S0<R>, TagNotDb<R>>>
+{
+};
 
-inline bool ref_eval(int expr, const int* th, int sev)
+inline bool ref_eval(int expr, const int* th, int sev, int tag = 0)
 {
     bool a = sev >= th[0], b = sev >= th[1], c = sev >= th[2];
     switch (expr)
@@ -332,11 +350,13 @@ inline bool ref_eval(int expr, const int* th, int sev)
         return (a || b) && !c;
     case 6:
         return (a && !b) || c;
+    case 8:
+        return a && tag != 2; // TAGS[2] == "db core"
     default:
         return true;
     }
 }
-const char* const EXPRNAME[8] = { "S0", "!S0", "!!S0", "S0&!S1", "S0|!S1", "(S0|S1)&!S2", "(S0&!S1)|S2", "null" };
+const char* const EXPRNAME[9] = { "S0", "!S0", "!!S0", "S0&!S1", "S0|!S1", "(S0|S1)&!S2", "(S0&!S1)|S2", "null", "S0&tag!=db" };
 
 enum SinkKind
 {
@@ -404,6 +424,12 @@ inline std::string big_string(const Item& it)
 }
 
 // reference rendering: what `ostream << item` writes
+inline const char* line_end_text(int v)
+{
+    static const char* const t[] = { "\n", "\r\n", "tail\n", "\r", "a\n\n", " \n" };
+    return t[static_cast<unsigned>(v) % 6];
+}
+
 inline void render_into(std::ostream& o, const Item& it);
 inline std::string render(const Item& it)
 {
@@ -479,6 +505,9 @@ inline void render_into(std::ostream& o, const Item& it)
     case 'Q':
         o << (it.val % 3 == 0 ? "eth0" : it.val % 3 == 1 ? "q" : "");
         break;
+    case 'E':
+        o << line_end_text(it.val);
+        break;
     case 'F':
         o << FailBit{};
         break;
@@ -512,7 +541,7 @@ inline std::vector<Item> parse_items(const std::string& s)
         it.val = n;
         if (i < s.size() && s[i] == ',')
             ++i;
-        if (strchr("sBkhiuldbpcgfxnmzryaHAWNQF", it.kind))
+        if (strchr("sBkhiuldbpcgfxnmzryaHAWNQFE", it.kind))
             v.push_back(it);
         if (v.size() >= 8)
             break;
@@ -705,6 +734,10 @@ decltype(auto) with_item(int stmt, int k, const Item& it, F&& f)
         }
         return f(v);
     }
+    case 'E':
+        if (it.val % 2)
+            return f(std::string(line_end_text(it.val))); // text that ends in a line break belongs to the message as it is
+        return f(line_end_text(it.val));
     case 'Q':
     {
         // a partially filled character buffer: only the text up to the terminator belongs to the message
